@@ -74,6 +74,7 @@ type Req struct {
 	Pass    string     `json:"pass,omitempty"` // password of an encrypted seed
 	Pipe    *PipeCase  `json:"pipe,omitempty"`
 	Skip    []string   `json:"skip,omitempty"`  // calls not to make (they killed an earlier worker)
+	Only    string     `json:"only,omitempty"`  // confirmation runs: besides opening the file, make only this call
 	GraceMs int        `json:"grace,omitempty"` // goroutine grace period
 	Probe   bool       `json:"probe,omitempty"` // only the walker-specific probe call
 	Echo    bool       `json:"echo,omitempty"`  // return the input bytes with the done line
@@ -113,6 +114,7 @@ type wk struct {
 	data   []byte
 	objs   int
 	skip   map[string]bool
+	only   string
 	grace  time.Duration
 	sample []metrics.Sample
 	recs   int
@@ -245,7 +247,7 @@ func leakSignature() string {
 
 // call runs f as one logged call.  gets, if not nil, is read afterwards.
 func (k *wk) call(name, arg string, n int, gets *int, f func() (proj []string, err error)) (outcome string) {
-	if k.skip[name] || k.skip[name+" "+arg] {
+	if k.skip[name] || k.skip[name+" "+arg] || !k.wanted(name) {
 		return "skipped"
 	}
 	k.begin(name, arg)
@@ -267,7 +269,7 @@ func (k *wk) call(name, arg string, n int, gets *int, f func() (proj []string, e
 // allocation of a single call (the envelope is per call), the total wall time
 // and the goroutine counts around the whole loop.
 func (k *wk) callEach(name string, n int, gets *int, each func(i int)) {
-	if k.skip[name] {
+	if k.skip[name] || !k.wanted(name) {
 		return
 	}
 	k.begin(name, "")
@@ -300,6 +302,16 @@ func (k *wk) callEach(name string, n int, gets *int, each func(i int)) {
 	}
 	k.recs++
 	k.send(map[string]any{"r": rec})
+}
+
+// wanted reports whether a call is to be made in a run restricted to one call
+// (the calls that open the file are always made: the others need their result).
+func (k *wk) wanted(name string) bool {
+	if k.only == "" || name == k.only {
+		return true
+	}
+	return strings.HasPrefix(name, "open/") || name == "seqscan" || strings.HasPrefix(name, "makereader/") || name == "close" ||
+		name == "pages" || name == "seq/pages" || (name == "page" && (k.only == "process" || k.only == "pagefonts"))
 }
 
 // measure executes f and fills in the record.
@@ -797,6 +809,7 @@ func WorkerMain() {
 		for _, s := range req.Skip {
 			k.skip[s] = true
 		}
+		k.only = req.Only
 		k.grace = time.Duration(req.GraceMs) * time.Millisecond
 		if k.grace == 0 {
 			k.grace = time.Second
